@@ -448,6 +448,31 @@ class Flow:
         mu = ('mu', L, key)
         direction = None
         item = None
+        option_acc = False
+        if init == ('none',) and nxt[0] == 'phi':
+            # Option-valued running extremum: None -> Some(first element); Some(m) -> Some(selection between m and the element)
+            c0 = nxt[1]
+            none_arm, some_arm = (nxt[2], nxt[3]) if c0 == neg_cond(is_some(mu)) or c0 == neg_cond(('is_some', mu)) else (
+                (nxt[3], nxt[2]) if c0 == is_some(mu) or c0 == ('is_some', mu) else (None, None))
+            if none_arm is not None and none_arm[0] == 'some':
+                def strip_some(t_):
+                    if t_[0] == 'some':
+                        return t_[1]
+                    if t_[0] == 'phi':
+                        a_, b_ = strip_some(t_[2]), strip_some(t_[3])
+                        if a_ is None or b_ is None:
+                            return None
+                        return phi(t_[1], a_, b_)
+                    if t_ == mu:
+                        return payload(mu)
+                    return None
+                inner = strip_some(some_arm)
+                first_item = none_arm[1]
+                if inner is not None:
+                    option_acc = True
+                    pm = payload(mu)
+                    nxt = map_term(inner, lambda x_: mu if x_ == pm else x_)
+                    seed_item = first_item
         if nxt[0] == 'op' and nxt[1] in ('max', 'min') and len(nxt[2]) == 2 and mu in nxt[2]:
             item = nxt[2][1] if nxt[2][0] == mu else nxt[2][0]
             direction = nxt[1]
@@ -470,6 +495,10 @@ class Flow:
         if not (item[0] == 'get' and any(x[0] == 'idx' and x[1] == L for x in subterms(item[2]))):
             return None, 'the rescan compares with %s, not with the elements of the window' % tstr(item)[:50]
         seq = item[1]
+        if option_acc:
+            if seed_item != item:
+                return direction, 'the first element seen seeds the extremum with %s, not with the element itself' % tstr(seed_item)[:40]
+            return direction, None
         ok_init = (init[0] in ('front', 'back') and init[1] == seq) or (init[0] == 'get' and init[1] == seq) or \
             (init[0] == 'sentinel' and ((direction == 'max' and init[1] in ('min_value', 'neg_infinity')) or
                                         (direction == 'min' and init[1] in ('max_value', 'infinity'))))
